@@ -365,9 +365,14 @@ def install():
             src = self.source
             ideal = (src.brightness == 1 and src.purity == 1 and src.indistinguishability == 1
                      and not src.probability_threshold)
-            if getattr(self, "_lwverif_seen", None) is not res:
-                object.__setattr__(self, "_lwverif_seen", res)
-                c = self.circuit
+            c = self.circuit
+            # re-check whenever the returned object OR the configuration it should reflect is new
+            cfg = (src.brightness, src.purity, src.indistinguishability, src.probability_threshold,
+                   tuple(self.input_state), self.backend.backend, tuple(sorted(c.heralds["input"].items())),
+                   tuple(sorted(c.heralds["output"].items())), c.U_full.tobytes())
+            seen = getattr(self, "_lwverif_seen", None)
+            if seen is None or seen[0] is not res or seen[1] != cfg:
+                object.__setattr__(self, "_lwverif_seen", (res, cfg))
                 occ = insert_heralds(self.input_state.s, c.heralds["input"])
                 u = c.U_full
                 if ideal and boson.n_fock(u.shape[0], sum(occ)) <= MAX_REF_PATTERNS:
@@ -395,6 +400,33 @@ def install():
         return res
 
     emu.Sampler.probability_distribution = property(pd_get, doc=prop.__doc__)
+
+    # ---------------- Sampler.__init__: what "no source / no detector / no backend" means (C04, C07)
+    orig_sinit = emu.Sampler.__init__
+
+    @functools.wraps(orig_sinit)
+    def sampler_init(self, circuit, input_state, source=None, detector=None, backend=None):
+        orig_sinit(self, circuit, input_state, source, detector, backend)
+        try:
+            STATS["sampler_default_checks"] += 1
+            if source is None:
+                s = self.source
+                if not (s.brightness == 1 and s.purity == 1 and s.indistinguishability == 1
+                        and not s.probability_threshold):
+                    report("C04", f"a Sampler created without a source does not have an ideal source: {s}",
+                           monitor="Sampler.__init__ post-condition", mechanism="default_source_not_ideal")
+            if detector is None:
+                d = self.detector
+                if not (d.efficiency == 1 and d.p_dark == 0 and d.photon_counting is True):
+                    report("C07", f"a Sampler created without a detector does not have a perfect detector: {d}",
+                           monitor="Sampler.__init__ post-condition", mechanism="default_detector_not_perfect")
+            if backend is None and self.backend.backend != "permanent":
+                report("C04", f"a Sampler created without a backend uses '{self.backend.backend}'",
+                       monitor="Sampler.__init__ post-condition", mechanism="default_backend")
+        except Exception as e:  # noqa: BLE001
+            STATS["sampler_default_monitor_error:" + type(e).__name__] += 1
+
+    emu.Sampler.__init__ = sampler_init
 
     # ---------------- Source._build_statistics (C06)
     from lightworks.emulator.components import Source
